@@ -12,6 +12,7 @@ CONSTANTS
  MaxEvents = 1
  MaxFaults = 2
  MaxTicks = 1
+ MaxBreaks = 0
  Export = FALSE
  RunToBlock = FALSE
  Mut = "none"
